@@ -460,10 +460,20 @@ def snapshot_provenance(run, model, rule):
         el = ("elem", concat)
         # a ValueError is raised when the name was seen before (membership of el.name in a local set)
         raised = False
+        # ... either in the walk itself or in a second loop over the list the walk has built (every element of it is
+        # an element of the walk)
+        walk_ids = set(id(sub) for st in it_ok[0].stmt.body for sub in ast.walk(st))
+        built0 = set(call.func.value.id for n_ in flow.cfg.nodes for call, c_, a_ in calls_in(n_) if id(n_.stmt) in walk_ids and isinstance(call.func, ast.Attribute) and call.func.attr == "append" and isinstance(call.func.value, ast.Name) and len(call.args) == 1 and strip_sites(flow.term(call.args[0], n_)) == el)
+        second = {}
+        for lp in ast.walk(fi.node):
+            if isinstance(lp, ast.For) and lp is not it_ok[0].stmt and id(lp) not in walk_ids and isinstance(lp.iter, ast.Name) and lp.iter.id in built0 and isinstance(lp.target, ast.Name) and lp.lineno > it_ok[0].stmt.lineno:
+                for sub in ast.walk(lp):
+                    second[id(sub)] = lp.target.id
         for n in flow.cfg.nodes:
             if n.kind == "test":
                 t = flow.term(n.ast, n)
-                if t[0] == "op" and t[1] == "cmp:In" and t[2][0] == ("attr", el, "name"):
+                in_second = isinstance(n.ast, ast.Compare) and len(n.ast.ops) == 1 and isinstance(n.ast.ops[0], ast.In) and isinstance(n.ast.left, ast.Attribute) and n.ast.left.attr == "name" and isinstance(n.ast.left.value, ast.Name) and second.get(id(n.ast)) == n.ast.left.value.id
+                if t[0] == "op" and t[1] == "cmp:In" and (t[2][0] == ("attr", el, "name") or in_second):
                     for k, tgt in n.succ:
                         if k == "T":
                             seen = gg.reach([tgt], None, None, follow_exc=False)
@@ -537,7 +547,7 @@ def snapshot_provenance(run, model, rule):
         if not ident and bad is None:
             bad = "equal names always raise: the very same snapshot object inherited along two paths of a diamond is reported as a conflict (no identity test)"
         # names are recorded
-        adds = [n for n in flow.cfg.nodes for call, c, a in calls_in(n) if isinstance(call.func, ast.Attribute) and call.func.attr == "add" and [flow.term(x, n) for x in call.args] == [("attr", el, "name")]]
+        adds = [n for n in flow.cfg.nodes for call, c, a in calls_in(n) if isinstance(call.func, ast.Attribute) and call.func.attr == "add" and ([flow.term(x, n) for x in call.args] == [("attr", el, "name")] or (len(call.args) == 1 and isinstance(call.args[0], ast.Attribute) and call.args[0].attr == "name" and isinstance(call.args[0].value, ast.Name) and second.get(id(call)) == call.args[0].value.id))]
         if not adds and bad is None:
             bad = "the names seen so far are not recorded"
     run.check(bad is None, rule, fi.qual, "walks inherited + own snapshots, skips only identical objects, raises ValueError on an equal name", bad or "", fi.loc())
